@@ -7,6 +7,9 @@ use crate::driver::{CheckResult, Failure, Known, Report, Tier};
 pub mod dagprops;
 pub mod build;
 pub mod inject;
+pub mod roles;
+pub mod checkers;
+pub mod files;
 
 pub const ALL: &[&str] = &["C10", "C11"];
 
@@ -14,6 +17,8 @@ pub const ALL: &[&str] = &["C10", "C11"];
 pub fn run(prop: &str, tier: Tier, seed: u64) -> i32 {
   match prop {
     "C10" | "C11" => dagprops::run(prop, tier, seed),
+    "C12" => checkers::run(tier, seed),
+    "C13" => files::run(tier, seed),
     p if build::spec_of(p).is_some() => build::run(prop, tier, seed),
     _ => { eprintln!("unknown property {}", prop); 2 }
   }
@@ -24,6 +29,8 @@ pub fn replay(path: &Path) -> Result<CheckResult, String> {
   let (prop, label) = crate::driver::replay_label(path).ok_or_else(|| format!("{}: not a replay file", path.display()))?;
   match prop.as_str() {
     "C10" | "C11" => dagprops::replay(&prop, &label, path),
+    "C12" => checkers::replay(path),
+    "C13" => files::replay(path),
     p if build::spec_of(p).is_some() => build::replay(&prop, &label, path),
     _ => Err(format!("unknown property {}", prop)),
   }
